@@ -1,6 +1,7 @@
 """DSL checks (C01-C05, C08-C10 and the DSL part of C03/C20): workloads, attribution of a
 violating event to the properties it breaks, and the per-shard run loop."""
 import collections
+import itertools
 import hashlib
 import json
 import random
@@ -24,6 +25,21 @@ def props_of(ev):
         P.add('C03')
         if emptyish:
             P.add('C05')
+        exp = (ev.expected or '')
+        if exp.startswith('exc:'):
+            # a call that MUST raise a documented exception died with a foreign one instead: that is also the
+            # "wrong exception" of the property that demands the documented one
+            involved = set(exp[4:].split('|'))
+            if S.T_REPEAT in involved:
+                P.add('C09')
+            if S.T_WIDTH in involved:
+                P.add('C10')
+            if S.T_EMPTYNEG in involved:
+                P.add('C05')
+            if 'quant' in fl and (S.T_TYPE in involved or S.T_VALUE in involved):
+                P.add('C04')
+        elif exp == 'shadow' and 'quant' in fl and not raw:
+            P.add('C04')
     elif base == 'uncompilable':
         P.add('C03')
         if not raw:
@@ -61,6 +77,9 @@ def props_of(ev):
             P.add('C04')
         if base == 'unexpected-exception' and emptyish:
             P.add('C05')
+        if base == 'unexpected-exception' and 'quant' in fl and not raw:
+            # valid operand, valid bounds, and no pattern at all: the quantifier does not match k repetitions
+            P.add('C04')
         if base == 'unexpected-exception' and not P and not raw:
             # a valid composition was refused with some other library exception
             P.add('C02')
@@ -307,7 +326,22 @@ def wl_c08(tier, seed, shard, nshards):
                         yield {'prog': w3(w2(w1(x))), 'form': 'c', 'w': 'W8'}
                         yield {'prog': w3(G.OPN('cat', w2(w1(x)), G.L('t'))), 'form': 'm', 'w': 'W8'}
                         yield {'prog': G.OPN('cat', w3(G.L('p')), w2(w1(x))), 'form': 'c', 'w': 'W8'}
-    yield from take(det(), shard, nshards)
+    def renames():
+        # naming / renaming touches only the outermost group and gives it exactly the new name: old and new names that
+        # are prefixes / suffixes / case variants of each other, with a later reference to the new name
+        pairs = [('id1', 'id'), ('id', 'id1'), ('total', 'tot'), ('__', '_'), ('_', '__'), ('N', 'n'), ('n', 'N'), ('n', 'n'),
+                 ('a_b', 'a'), ('xn', 'n'), ('n1', 'n2'), ('é', 'e'), ('e', 'é'), ('NAME_2', 'NAME')]
+        bodies = [G.L('a'), G.OPN('alt', G.L('a'), G.L('bc')), G.OPN('cat', G.L('a'), G.OPN('cap', G.L('b'), name='inner')), G.L('(?P<id>')]
+        for old_, new_ in pairs:
+            for b in bodies:
+                inner = G.OPN('cap', b, name=old_)
+                for f in 'cm':
+                    yield {'prog': G.OPN('cap', inner, name=new_), 'form': f, 'w': 'W8n'}
+                    yield {'prog': G.OPN('cat', G.OPN('cap', inner, name=new_), {'o': 'bref', 'r': new_}), 'form': f, 'w': 'W8n'}
+                    yield {'prog': G.OPN('cap', G.OPN('grp', inner), name=new_), 'form': f, 'w': 'W8n'}
+                    yield {'prog': G.OPN('cap', G.OPN('cap', inner), name=new_), 'form': f, 'w': 'W8n'}
+                    yield {'prog': G.OPN('cat', G.OPN('cap', inner, name=new_), G.OPN('cond', G.L('y'), G.L('z'), name=new_)), 'form': f, 'w': 'W8n'}
+    yield from take(itertools.chain(det(), renames()), shard, nshards)
     r = shard_rnd(seed, shard, 8)
     n = (5000 if tier == 'quick' else 50000) // nshards
     for _ in range(n):
@@ -344,11 +378,15 @@ def wl_c09(tier, seed, shard, nshards):
             yield {'prog': G.OPN('ex', G.L(s), n=1, rmul=True), 'form': 'o', 'w': 'W1q'}
         anchors = [lambda x: G.OPN('mas', x), lambda x: G.OPN('mae', x), lambda x: G.OPN('mals', x), lambda x: G.OPN('male', x),
                    lambda x: G.OPN('fol', x, G.L('z')), lambda x: G.OPN('pre', x, G.L('z')), lambda x: G.OPN('lenc', x, G.L('z')),
-                   lambda x: G.OPN('fol', G.L('z'), x), lambda x: G.OPN('nfol', x, G.L('z')), lambda x: G.OPN('npre', G.L('z'), G.L('k'))]
+                   lambda x: G.OPN('fol', G.L('z'), x), lambda x: G.OPN('nfol', x, G.L('z')), lambda x: G.OPN('npre', G.L('z'), G.L('k')),
+                   # "direct assertion instances incl. those applied to the empty pattern": the assertion text comes
+                   # from the corpus ('!...', '=...', '<...' right behind '(?=' / '(?<=')
+                   lambda x: G.OPN('fol', G.E(0), x), lambda x: G.OPN('pre', G.E(0), x), lambda x: G.OPN('lenc', G.E(0), x),
+                   lambda x: G.OPN('nfol', G.E(0), x), lambda x: G.OPN('npre', G.E(0), x)]
         for j, s_ in enumerate(strings):
             for k, an in enumerate(anchors):
                 q = quants[(j + k) % 8]
-                yield {'prog': q(an(G.L(s_))), 'form': 'cm'[(j + k) % 2], 'w': 'W1aq'}
+                yield {'prog': q(an(G.L(s_))), 'form': 'cm'[(j + k // 2) % 2], 'w': 'W1aq'}
             yield {'prog': G.OPN('star', G.OPN('male', G.OPN('alt', G.L('a'), G.L(s_)))), 'form': 'c', 'w': 'W1aq'}
             yield {'prog': G.OPN('plus', G.OPN('mas', G.OPN('cat', G.L(s_), G.L('b')))), 'form': 'm', 'w': 'W1aq'}
         for x in G.quant_operands() + G.leaf_basis():
@@ -677,7 +715,7 @@ def replay(case, check, seed=0):
     if case.get('kind') == 'cls':
         from . import cls
         return cls.replay(case, check, seed)
-    if case.get('kind') in ('int', 'int-invalid', 'dec', 'dec-invalid', 'numeral', 'numeral-invalid', 'word', 'ipv4', 'ipv6', 'date', 'date-invalid'):
+    if case.get('kind') in ('int', 'int-invalid', 'dec', 'dec-invalid', 'dec-glue', 'dec-unbounded', 'numeral', 'numeral-invalid', 'word', 'ipv4', 'ipv6', 'date', 'date-invalid', 'date-invalid-late'):
         from . import meta
         return [v for v in meta.replay(case, check, seed) if meta.is_c03(v['symptom'])]
     from .interp import Interp
